@@ -20,7 +20,7 @@ RULE = ('cases: (a) prioritize() and send_headers(priority_*) with weights in {-
         'followed by traffic on that id; distinct by trace')
 ASSUMPTIONS = ['a received self-dependency may be a stream error or a connection error (PROTOCOL_ERROR)']
 TIERS = {'quick': {'cases': 5000, 'size': 300},
-         'thorough': {'cases': 200000, 'size': 400}}
+         'thorough': {'cases': 1200000, 'size': 400}}
 WEIGHTS = [-1, 0, 1, 16, 255, 256, 257]
 TOP = 2**31 - 1
 
